@@ -313,6 +313,36 @@ class Plumbing:
                         it = src(loop.iter) if isinstance(loop, ast.For) else ""
                         if p is not None and key is not None:
                             record(p, Storage("csv", key, s.value, f"{w} for {src(loop.target) if isinstance(loop, ast.For) else '?'} in {it}", s))
+                # `d.update({key(d): value(d) for d in <iter>})` / `d.update({...literal...})` / `d |= {...}`
+                upd: list[ast.expr] = []
+                for s in walk_scope(f.node):
+                    if isinstance(s, ast.Expr) and isinstance(s.value, ast.Call) and isinstance(s.value.func, ast.Attribute) and s.value.func.attr == "update" \
+                            and isinstance(s.value.func.value, ast.Name) and s.value.func.value.id == dname and len(s.value.args) == 1 and not s.value.keywords:
+                        upd.append(s.value.args[0])
+                    elif isinstance(s, ast.AugAssign) and isinstance(s.op, ast.BitOr) and isinstance(s.target, ast.Name) and s.target.id == dname:
+                        upd.append(s.value)
+                for u in upd:
+                    if isinstance(u, ast.Name) and isinstance(env.get(u.id), (ast.Dict, ast.DictComp)):
+                        u = env[u.id]
+                    if isinstance(u, ast.DictComp) and len(u.generators) == 1 and not u.generators[0].ifs:
+                        gen = u.generators[0]
+                        key = _str_const(u.key, env)
+                        p, w = classify_value(u.value)
+                        if p is not None and key is not None:
+                            record(p, Storage("csv", key, u.value, f"{w} for {src(gen.target)} in {src(gen.iter)}", u))
+                            continue
+                    elif isinstance(u, ast.Dict) and all(k is not None for k in u.keys):
+                        good = True
+                        for k, v in zip(u.keys, u.values):
+                            key = _str_const(k, env)
+                            p, w = classify_value(v)
+                            if p is not None and key is not None:
+                                record(p, Storage("csv", key, v, w, v))
+                            else:
+                                good = False
+                        if good:
+                            continue
+                    raise AnalysisError(f"{f.loc(eff.node)}: cannot read what `{dname}.update(...)` adds to the results dict")
             elif eff.api == "h5py.File":
                 pass
         # HDF5 payloads: create_dataset(data=param) / data[...] = slice of param
@@ -402,7 +432,15 @@ class Plumbing:
                     inner = env[inner.id]
                 if isinstance(inner, (ast.ListComp, ast.GeneratorExp)) and len(inner.generators) == 1:
                     st = self._classify_load(f, inner.elt, roots, env, wrap)
-                    st.wrapper = f"vstack[{st.wrapper} for {src(inner.generators[0].target)} in {src(inner.generators[0].iter)}]"
+                    it = inner.generators[0].iter
+                    # the trip count may sit in a once-assigned local (`n_params = len(cp['parameters_precision'])`)
+                    for _ in range(3):
+                        names = [x.id for x in ast.walk(it) if isinstance(x, ast.Name) and x.id in env and x.id not in roots]
+                        if not names:
+                            break
+                        from .util import _substitute
+                        it = _substitute(it, names[0], env[names[0]])
+                    st.wrapper = f"vstack[{st.wrapper} for {src(inner.generators[0].target)} in {src(it)}]"
                     return st
             return Storage("?", src(e), e, f"call:{src(e)[:60]}", e)
         if isinstance(e, ast.Attribute) and e.attr == "T":
